@@ -19,8 +19,14 @@ import (
 
 // captureHello runs the real client handshake against a connection nobody answers and returns the
 // first packet it sent (the client is then unblocked by closing the connection).
+// captureLead: the capturing client's clock runs this far ahead of (or, negative, behind) the server's.
+var captureLead time.Duration
+
 func (r *e2eRig) captureHello(uid []byte, sid uint32, browser string) []byte {
 	remote, auth := r.clientCfg(uid, sid, "plain", browser, "example.com", 1, false, "shadowsocks")
+	if lead := captureLead; lead != 0 {
+		auth.WorldState.Now = func() time.Time { return time.Now().Add(lead) }
+	}
 	n := vnet.New()
 	a, b := n.Pair("cap", false)
 	done := make(chan struct{})
@@ -109,6 +115,10 @@ func init() {
 		phases := []time.Duration{0, 12*time.Hour - 400*time.Second, 12*time.Hour - 2*time.Second}
 		withVariant := c.P("variant", "1") == "1"
 		cross := c.P("cross", "0") == "1"
+		// lead: the clients' clocks are this many seconds ahead of the server's (within the tolerance), so
+		// that their handshakes stay timely - and must stay remembered - for up to tolerance+lead seconds
+		captureLead = time.Duration(c.PI("lead", 0)) * time.Second
+		defer func() { captureLead = 0 }()
 		sc := &vrt.Scenario{
 			Opt: vrt.Options{HorizonNs: int64(100 * time.Hour), StepCap: 2000000},
 			Main: func() {
@@ -290,6 +300,8 @@ func init() {
 			{Scenario: "replay.history", Params: vx.P("depth", fmt.Sprint(b(4, 5))), Bound: 1, Weight: 9},
 			{Scenario: "replay.history", Params: vx.P("depth", fmt.Sprint(b(5, 6)), "variant", "0"), Bound: 0, Weight: 9},
 			{Scenario: "replay.history", Params: vx.P("depth", fmt.Sprint(b(3, 4)), "cross", "1"), Bound: 0, Weight: 7},
+			{Scenario: "replay.history", Params: vx.P("depth", fmt.Sprint(b(4, 5)), "variant", "0", "lead", "170"), Bound: 0, Weight: 8},
+			{Scenario: "replay.history", Params: vx.P("depth", fmt.Sprint(b(3, 4)), "lead", "-170"), Bound: 0, Weight: 6},
 			{Scenario: "replay.crosstransport", Weight: 2},
 			{Scenario: "replay.concurrent", Params: vx.P("threads", "3"), Bound: -1, Weight: 5},
 			{Scenario: "replay.concurrent", Params: vx.P("threads", "2", "crosscheck", "1"), Bound: 3, Weight: 5},
